@@ -1367,6 +1367,22 @@ def corpus():
     p.g2(b, a)
     p.g2(a, b, "CPHASE")
     add("witness-F3", p)
+    # two separate two-qubit registers on ONE node: measuring a qubit out of one renumbers that register only;
+    # the other register is then operated on at every position (both removal positions, both registers)
+    for first in (0, 1):
+        p = P(1)
+        a, b, c, d = p.new(0, "H"), p.new(0, "X"), p.new(0, "H"), p.new(0, "K")
+        p.g2(a, b)
+        p.g2(c, d)
+        p.meas((a, b)[first], 0, 1)
+        p.g1(d, "X")
+        p.g1(c, "K")
+        p.g2(d, c, "CPHASE")
+        p.meas(d, 1, 1)
+        p.meas(c, 0, 0)
+        p.g1((b, a)[first], "H")
+        p.meas(d, 0, 1)
+        add("two-registers-one-node:remove-%d" % first, p)
     # F2: send to a full node (error raised remotely)
     p = P(2, mq=1)
     a, b = p.new(0, "H"), p.new(1, "K")
